@@ -141,12 +141,9 @@ def check_writer(run, pkg, ndim):
     bb = ("sym", "boxbounds")
 
     def assume(c):
-        if c[0] == "cmp" and c[1] in ("==", "!=") and c[2] == ("call", "builtins.len", (bb,), ()) and is_const(c[3]):
-            r = c[3][1] == ndim
-            return r if c[1] == "==" else not r
-        if c[0] == "cmp" and c[1] in ("==", "!=") and c[2] == ("sub", ("attr", bb, "shape"), C(0)) and is_const(c[3]):
-            r = c[3][1] == ndim
-            return r if c[1] == "==" else not r
+        if c[0] == "cmp" and c[2] in (("call", "builtins.len", (bb,), ()), ("sub", ("attr", bb, "shape"), C(0))) and is_const(c[3]) and isinstance(c[3][1], int):
+            k = c[3][1]
+            return {"==": ndim == k, "!=": ndim != k, "<": ndim < k, "<=": ndim <= k, ">": ndim > k, ">=": ndim >= k}.get(c[1])
         return None
     it = Interp(pkg, pkg.func(f"{WR}.write_dump_header"), assume=assume)
     fi = it.fi
@@ -222,8 +219,10 @@ def check_data_header(run, pkg):
     bb = ("sym", "boxbounds")
     for ndim in (2, 3):
         def assume(c, ndim=ndim):
-            if c[0] == "cmp" and c[1] == "==" and c[2] == ("call", "builtins.len", (bb,), ()) and is_const(c[3]):
-                return c[3][1] == ndim
+            # any comparison of the number of bound rows with a constant is decided by the configuration
+            if c[0] == "cmp" and c[2] in (("call", "builtins.len", (bb,), ()), ("sub", ("attr", bb, "shape"), C(0))) and is_const(c[3]) and isinstance(c[3][1], int):
+                k = c[3][1]
+                return {"==": ndim == k, "!=": ndim != k, "<": ndim < k, "<=": ndim <= k, ">": ndim > k, ">=": ndim >= k}.get(c[1])
             return None
         it = Interp(pkg, pkg.func(f"{WR}.write_data_header"), assume=assume)
         fq = short(it.fi.qual)
